@@ -117,8 +117,6 @@ def main():
             k = known_match(a.prop, viol, known)
             print("KNOWN-FINDING: property=%s %s" % (a.prop, k["what"]))
             viol = None
-            # the broken tie itself still has to be reported unless it is the known finding's own tie
-            failures = [f for f in failures if f.name not in k.get("ties", [])]
         if viol is not None:
             path = write_replay(a.prop, seed, 0, dict(property=a.prop, kind="failing-input", clause=viol.clause,
                                                       what=viol.what, input=viol.case, observed=viol.observed,
